@@ -120,6 +120,63 @@ theorem raw_vec_append_leaks :
 /-- wiping `len` instead of the capacity would not do: after a truncation the spare capacity still holds content -/
 example : ¬ clean ((bufferResize Params.std ⟨1, [1, 2, 3, 4], []⟩ 1 Heap.init).1.cells.drop 1) := by decide
 
+/-! ### the C boundary (`src/ffi/secret.rs`): `SecretBuffer::from_secret`, `askar_buffer_free`, `EncryptedBuffer`
+
+`Op.ffiFree` (export + release) is one of the operations of `Op`, so `free_only_zeroed`, `no_hidden_realloc`, `free_only_zeroed_prefix`
+and `contents_correct` above already cover programs in which buffers cross the C boundary at any point.  The theorems below
+say what happens to ONE buffer, from any state. -/
+
+/-- For every secret buffer (any length, any capacity, any stale content in its spare capacity) and every heap whose log is good:
+    exporting it with `from_secret` and releasing it with `askar_buffer_free` releases nothing un-wiped and never reallocates; the C
+    caller sees exactly the secret bytes and `len` is their number; the block handed out has capacity = `len` (so the
+    `Vec::from_raw_parts(data, len, len)` of `askar_buffer_free` describes the real block and its wipe covers all of it); and a
+    non-empty buffer's block IS released, as `len` wiped cells. -/
+theorem ffi_buffer_free_wipes (P : Params) (s : RVec) (h : Heap) (hg : Lemmas.Good h) :
+    (∀ e ∈ (ffiRoundTrip P s h).log, e.Clean ∧ e.isRealloc = false) ∧
+    (ffiFromSecret P s h).1.len = s.data.length ∧
+    (∃ v, (ffiFromSecret P s h).1.block = some v ∧ v.data = s.data ∧ v.cap = (ffiFromSecret P s h).1.len) ∧
+    (s.data ≠ [] → ∃ id, Event.free id (List.replicate s.data.length none) ∈ (ffiRoundTrip P s h).log) := by
+  obtain ⟨_, hl, v, hv, hd, _, hc⟩ := Lemmas.ffiFromSecret_spec P s h hg
+  refine ⟨?_, hl, ⟨v, hv, hd, hc⟩, Lemmas.ffiRoundTrip_frees P s h hg⟩
+  intro e he
+  have := Lemmas.ffiRoundTrip_good P s h hg e he
+  cases e <;> simp_all [Event.Strict, Event.Clean, Event.isRealloc]
+
+/-- … whatever the C caller wrote into the buffer in between (`data` is `*mut u8`). -/
+theorem ffi_buffer_free_wipes_after_caller_writes (P : Params) (s : RVec) (h : Heap) (hg : Lemmas.Good h) (d : List UInt8) :
+    ∀ e ∈ (ffiBufferFree ((ffiFromSecret P s h).1.overwrite d) (ffiFromSecret P s h).2).log, e.Clean ∧ e.isRealloc = false := by
+  obtain ⟨h1, _, v, hv, _, _, hc⟩ := Lemmas.ffiFromSecret_spec P s h hg
+  have hb : ∀ w, (ffiFromSecret P s h).1.block = some w → w.cap = (ffiFromSecret P s h).1.len := by
+    intro w hw; rw [hv] at hw; cases hw; exact hc
+  intro e he
+  have := Lemmas.ffiBufferFree_good _ _ h1 (Lemmas.overwrite_cap _ d hb) e he
+  cases e <;> simp_all [Event.Strict, Event.Clean, Event.isRealloc]
+
+/-- `askar_buffer_free` of the default buffer (`data = NULL`) and of an exported empty buffer (dangling `data`, `len` 0) releases nothing. -/
+theorem ffi_buffer_free_empty (P : Params) (h : Heap) :
+    ffiBufferFree ⟨0, none⟩ h = h ∧ ffiRoundTrip P RVec.empty h = h := by
+  constructor <;> rfl
+
+/-- `EncryptedBuffer::from_encrypted`: its `buffer` is the `SecretBuffer` of the ciphertext; the positions are plain numbers. -/
+theorem encrypted_buffer_is_secret_buffer (P : Params) (s : RVec) (t n : Nat) (h : Heap) :
+    (ffiFromEncrypted P s t n h).1.1 = (ffiFromSecret P s h).1 ∧ (ffiFromEncrypted P s t n h).2 = (ffiFromSecret P s h).2 ∧
+    (ffiFromEncrypted P s t n h).1.2 = (t, n) := ⟨rfl, rfl, rfl⟩
+
+/-- sensitivity: it is the `shrink_to_fit` in `from_secret` that makes the wipe complete — without it a buffer with stale spare
+    capacity goes back to the allocator with that content (and with a layout that is not the allocated one) -/
+theorem ffi_without_shrink_leaks :
+    ∃ (s : RVec) (h : Heap), ∃ e ∈ (ffiBufferFree (ffiFromSecretNoShrink s h).1 (ffiFromSecretNoShrink s h).2).log, ¬ e.Clean :=
+  ⟨⟨1, [1], [some 2]⟩, Heap.init, by decide⟩
+
+/-- non-vacuity: a program in which a grown, then truncated buffer crosses the C boundary: the block it outgrew, the block the
+    `shrink_to_fit` of `from_secret` leaves behind and the exported block are released (3 frees), the last one after an `escape` -/
+example :
+    ((runAll Params.std [.new (.fromSlice [1, 2, 3] 0), .buf 0 (.extend (List.replicate 40 7)), .buf 0 (.resize 10), .ffiFree 0]).log.filter
+      fun e => match e with | .free .. => true | _ => false).length = 3 ∧
+    ((runAll Params.std [.new (.fromSlice [1, 2, 3] 0), .buf 0 (.extend (List.replicate 40 7)), .buf 0 (.resize 10), .ffiFree 0]).log.filter
+      fun e => match e with | .escape .. => true | _ => false).length = 1 := by
+  decide
+
 /-! ## Part B -/
 open Askar.SecretFmt
 
@@ -207,6 +264,74 @@ theorem log_never_leaks_fixed (s : Scenario) : s.leaks FmtCfg.fixed = false := b
   cases h : s.leaks FmtCfg.fixed with
   | false => rfl
   | true => exact absurd ((log_leaks_exactly FmtCfg.fixed s).mp h).1 (by decide)
+
+/-! ### error TEXT (`Display`, `Debug`, the `source()` chain, the C API's JSON) and the C API's logger -/
+
+/-- For every error of the three crates with a cause chain of ANY length: a token that carries secret bytes can occur in `{}` /
+    `{:?}` of the error, in `{}` / `{:?}` of any error on its `source()` chain, or in the JSON of `askar_get_current_error`, only if
+    it occurs in the MESSAGE of one of the links: the formatting code (kind text, "\nCaused by: ", the derived `Debug`) adds none. -/
+theorem error_text_only_from_messages (c : List ErrLink) :
+    ∀ t ∈ errTexts c ++ [errJson c], ∀ tok ∈ t, tok.isSecret = true → tok ∈ chainMessages c := by
+  intro t hT tok ht hs
+  simp only [List.mem_append, List.mem_singleton] at hT
+  rcases hT with hT | rfl
+  · exact SecretFmt.Lemmas.errTexts_secret c t hT tok ht hs
+  · exact SecretFmt.Lemmas.errJson_secret c tok ht hs
+
+/-- Hence: when every message of the chain is label text (string literals, algorithm / scheme / parameter names — every `err_msg!`
+    site reached by the campaigns, and the foreign causes' own texts as observed), no rendering of the error carries a secret. -/
+theorem error_text_clean (c : List ErrLink) (hm : ∀ tok ∈ chainMessages c, tok.isSecret = false) :
+    ∀ t ∈ errTexts c ++ [errJson c], ∀ tok ∈ t, tok.isSecret = false := by
+  intro t hT tok ht
+  cases hs : tok.isSecret with
+  | false => rfl
+  | true =>
+    have := hm tok (error_text_only_from_messages c t hT tok ht hs)
+    rw [hs] at this; exact absurd this (by decide)
+
+/-- sensitivity: a message that embeds secret bytes is shown by `Display`, even from the bottom of a chain -/
+theorem error_message_secret_shows :
+    ∃ c : List ErrLink, ∃ tok ∈ errDisplay c, tok.isSecret = true :=
+  ⟨[⟨"Backend", none⟩, ⟨"Input", some [.text "bad key ", .raw [1, 2]]⟩], .raw [1, 2], by decide, rfl⟩
+
+/-- `CustomLogger::log` hands the C callback the record's own target / message / module path / file and nothing else; a disabled
+    logger hands over nothing. -/
+theorem custom_logger_forwards_record_only (en : Bool) (r : LogRecord) (fs : List (List Tok)) (h : customLoggerForward en r = some fs) :
+    ∀ f ∈ fs, ∀ tok ∈ f, tok ∈ r.target ∨ tok ∈ r.message ∨ (∃ m, r.modulePath = some m ∧ tok ∈ m) ∨ (∃ m, r.file = some m ∧ tok ∈ m) := by
+  unfold customLoggerForward at h
+  split at h
+  · simp only [Option.some.injEq] at h
+    subst h
+    intro f hf tok ht
+    simp only [List.mem_cons, List.not_mem_nil, or_false] at hf
+    rcases hf with rfl | rfl | rfl | rfl
+    · exact Or.inl ht
+    · exact Or.inr (Or.inl ht)
+    · cases hm : r.modulePath with
+      | none => simp [hm] at ht
+      | some m => exact Or.inr (Or.inr (Or.inl ⟨m, rfl, by simpa [hm] using ht⟩))
+    · cases hm : r.file with
+      | none => simp [hm] at ht
+      | some m => exact Or.inr (Or.inr (Or.inr ⟨m, rfl, by simpa [hm] using ht⟩))
+  · simp at h
+
+theorem custom_logger_disabled_silent (r : LogRecord) : customLoggerForward false r = none := rfl
+
+/-- the C API's own log sites are label sites: a capture through the C logger leaks exactly when one through `log::Log` does -/
+theorem ffi_log_sites_add_nothing (cfg : FmtCfg) (sites : List LogSite) (cred : Bool) :
+    (Scenario.mk (.ffiLabel :: sites) cred).leaks cfg = (Scenario.mk sites cred).leaks cfg := by
+  simp [Scenario.leaks, LogSite.leaky]
+
+/-- Observations (types outside the property's list): every one of them prints contents — by design. -/
+theorem obs_types_print_contents (t : ObsTy) : obsLeaky t = true := by
+  cases t <;> rfl
+
+/-- `Debug` of a `Scan` (a handle on a running query) is a function of the page size, whatever the tree. -/
+example (cfg : FmtCfg) : leaky cfg .scan = false := rfl
+
+/-- non-vacuity of `error_text_clean`: a three-link chain as the run sees it (storage error without message ← sqlx ← SQLite) -/
+example : ∀ tok ∈ chainMessages [⟨"Backend error", none⟩, ⟨"sqlx", some [.text "error returned from database: (code: 26) file is not a database"]⟩,
+    ⟨"sqlite", some [.text "(code: 26) file is not a database"]⟩], tok.isSecret = false := by decide
 
 /-- Dropping a heap-allocated key object leaves only zero bytes in its block. -/
 theorem key_drop_wipes (k : KeyBlock) : ∀ c ∈ (dropKey k).cells, c = 0 :=
